@@ -228,6 +228,16 @@ Proof. destruct st; cbn [is_def]; intros H; try reflexivity; discriminate. Qed.
 Lemma top_nondef st : is_def st = false -> top_stmt_ok st -> SimpleB rt mt false false st.
 Proof. destruct st; cbn [is_def top_stmt_ok]; intros H Hs; try exact Hs; discriminate. Qed.
 
+(* the body of every routine of the table is covered: the routines may call each other and themselves *)
+Lemma defs_bodies p : Forall top_stmt_ok p -> forall f d, In (f, d) (defs_of p) -> SimpleB rt mt false true (rd_body d).
+Proof.
+  induction 1 as [|st r Hst _ IH]; intros f d Hin; [contradiction|]. unfold defs_of in Hin. cbn [flat_map] in Hin. apply in_app_or in Hin.
+  destruct Hin as [Hin|Hin]; [|exact (IH f d Hin)].
+  destruct st; try contradiction. destruct Hin as [Hin|[]]. injection Hin as _ Hd. subst d. exact (proj2 Hst).
+Qed.
+Lemma top_bodies_ok p : top_ok p -> bodies_ok rt mt.
+Proof. intros (Hall & _ & Hrt) f d Hf. apply (defs_bodies p Hall f d). rewrite <- Hrt. exact (find_rdef_in f rt d Hf). Qed.
+
 Lemma enc_seg_of st : enc (seg_of st) = c_stmt rt mt false None st.
 Proof. destruct (is_def st) eqn:E; [destruct st; try discriminate; reflexivity|]. rewrite (seg_of_nondef st E). reflexivity. Qed.
 Lemma compile_segs p : flat_map (c_stmt rt mt false None) p = flat_map enc (map seg_of p).
@@ -295,14 +305,14 @@ Lemma exec_define f ss g ps body : Sem.exec rt mt (S f) false ss (SDefineRoutine
 Proof. reflexivity. Qed.
 
 (* the main code: the statements between the routine definitions, one after the other *)
-Lemma top_run im : routines_loaded rt mt im -> forall p, Forall (top_stmt_ok rt mt) p ->
+Lemma top_run im : bodies_ok rt mt -> routines_loaded rt mt im -> forall p, Forall (top_stmt_ok rt mt) p ->
   forall fuel ss s sig ss', sim ss s -> m_frames s = [] ->
   code_at im (m_pc s) (flat_map mpart (map (seg_of rt mt) p)) ->
   exec_seq rt mt fuel false ss p = ROk sig ss' ->
   exists n s' evs, esteps n im s = Some (s', evs) /\ sim ss' s' /\ m_pc s' = m_pc s + zlength (flat_map mpart (map (seg_of rt mt) p)) /\
                    rev (s_trace ss') = rev (s_trace ss) ++ evs.
 Proof.
-  intros Hload p Hall. induction Hall as [|st r Hst _ IH]; intros fuel ss s sig ss' Hsim Hfr Hc He.
+  intros Hbodies Hload p Hall. induction Hall as [|st r Hst _ IH]; intros fuel ss s sig ss' Hsim Hfr Hc He.
   - destruct fuel as [|fuel]; [discriminate|]. rewrite exec_seq_nil in He. injection He as _ <-.
     exists 0%nat, s, []. split; [reflexivity|]. split; [exact Hsim|]. split; [unfold zlength; cbn; lia|]. rewrite app_nil_r. reflexivity.
   - destruct fuel as [|fuel]; [discriminate|]. rewrite exec_seq_cons in He. cbn [map flat_map] in Hc |- *.
@@ -317,7 +327,7 @@ Proof.
       assert (Hin : in_loop_ok false None) by (intros H; discriminate).
       assert (Hir : in_ret_ok false (m_frames s)) by (intros H; discriminate).
       assert (Hd : depth_ok (m_frames s) (zlength (m_stack s))) by (rewrite Hfr; exact I).
-      destruct (proj1 (simpleB_simulation rt mt) false false st (top_nondef rt mt st E Hst) None im ss s sg sa fuel Hload Hin Hir Hd Hsim Hc1 Est)
+      destruct (proj1 (simpleB_simulation rt mt Hbodies) false false st (top_nondef rt mt st E Hst) None im ss s sg sa fuel Hload Hin Hir Hd Hsim Hc1 Est)
         as [[Hsg (n1 & s1 & e1 & E1 & Hs1 & Hpc1 & Hst1 & Ht1)]|[[_ (a & Ha & _)]|[v [_ (ret & F & Hct & _)]]]].
       * subst sg.
         assert (Hfr1 : m_frames s1 = []).
@@ -330,7 +340,7 @@ Proof.
       * rewrite Hfr in Hct. discriminate.
 Qed.
 
-(* Every program made of routine definitions (at the top level, each name once, none of them recursive) and of covered
+(* Every program made of routine definitions (at the top level, each name once; the routines may call each other and themselves) and of covered
    statements -- settings, assignments, print, wait, set / on / off, if / else, blocks, while / counted / endless loops,
    break, calls with ordinary values as arguments, return: compiled, loaded (the routine bodies moved out of line) and
    run on the machine model from the initial state, it finishes with exactly the events the reference semantics gives
@@ -340,7 +350,7 @@ Theorem program_run (p : script) (w : world) (fuel : nat) (sig : signal) (ss' : 
   exec_seq rt mt fuel false (init_sstate w) p = ROk sig ss' ->
   exists k, run_image k (load (flat_map (c_stmt rt mt false None) p)) w = Finished (rev (s_trace ss') ++ [EvFlush]).
 Proof.
-  intros Htop Hrun. pose proof (program_routines_loaded rt mt p Htop) as Hload. destruct Htop as (Hall & _ & _).
+  intros Htop Hrun. pose proof (program_routines_loaded rt mt p Htop) as Hload. pose proof (top_bodies_ok rt mt p Htop) as Hbodies. destruct Htop as (Hall & _ & _).
   set (code := flat_map (c_stmt rt mt false None) p) in *. set (im := load code) in *.
   set (segs := map (seg_of rt mt) p).
   assert (Hcode : code = flat_map enc segs) by (apply compile_segs).
@@ -355,7 +365,7 @@ Proof.
       split; [apply sim_with_pc; apply sim_init|]. split; reflexivity. }
   destruct Hstart as (n0 & s0 & E0 & Hs0 & Hpc0 & Hfr0).
   assert (Hc0 : code_at im (m_pc s0) (flat_map mpart (map (seg_of rt mt) p))) by (rewrite Hpc0; exact Hmain).
-  destruct (top_run im Hload p Hall fuel (init_sstate w) s0 sig ss' Hs0 Hfr0 Hc0 Hrun) as (n & s' & es & En & Hsim & Hpc & Htr).
+  destruct (top_run im Hbodies Hload p Hall fuel (init_sstate w) s0 sig ss' Hs0 Hfr0 Hc0 Hrun) as (n & s' & es & En & Hsim & Hpc & Htr).
   exists ((n0 + n) + 1)%nat. unfold run_image.
   assert (E : esteps (n0 + n) im (init_state w) = Some (s', [] ++ es)) by (eapply esteps_app; eassumption).
   rewrite (run_from_esteps (n0 + n) im (init_state w) s' ([] ++ es) 1 [] E). cbn [run_from].
@@ -439,7 +449,7 @@ Proof.
   - intros inr fuel acc. destruct fuel; reflexivity.
   - intros inl v _ fuel acc. destruct fuel; reflexivity.
   - intros inl fuel acc. destruct fuel; reflexivity.
-  - intros inl inr f args b d _ _ _ _ _ fuel acc. destruct fuel; reflexivity.
+  - intros inl inr f args b d _ _ _ fuel acc. destruct fuel; reflexivity.
   - intros inl inr c a _ _ IHa fuel acc. destruct fuel as [|fuel]; [reflexivity|]. exact (IHa fuel acc).
   - intros inl inr c a b _ _ IHa _ IHb fuel acc. destruct fuel as [|fuel]; [reflexivity|]. cbn [collect_stmt]. rewrite IHb. exact (IHa fuel acc).
   - intros inl inr l _ IH fuel acc. destruct fuel as [|fuel]; [reflexivity|]. exact (IH fuel acc).
